@@ -713,18 +713,28 @@ def leaf_checks(seed, n, cases, workdir):
         mp.append((gen_name(r).strip("/") or "a", r.choice([gen_glob(r), gen_glob(r) + "/", r.choice(["a", "src", "b", "x"]) + "/"])))
     mp = [(a, b) for a, b in mp if a == str(Path(a)) and not a.startswith("/")]   # normalised relative paths (the domain of check_path)
     names = [gen_name(r).replace("/", "") for _ in range(n // 4)] + ORD_FILES + ODD_FILES
-    parts = [[x for x in gen_name(r).split("/") if x and x != "."] + [r.choice(names) or "f"] for _ in range(n // 8)]
+    # (a component "." is not a path component: pathlib drops it, the theorems' domain excludes it)
+    parts = [[x for x in gen_name(r).split("/") if x and x != "."] + [(lambda x: "f" if x in ("", ".") else x)(r.choice(names))] for _ in range(n // 8)]
     parts += [[r.choice(SPEC_DIRS + EGG_DIRS + NEAR_DIRS)] + p for p in parts[: n // 16]] + [p + [r.choice(SPEC_DIRS + EGG_DIRS)] for p in parts[: n // 16]]
     lines = [[r.choice(["", " ", "#x", " # y", "a/", "  *.py ", "\t**/b/ ", "x y", "!z", " #"]) for _ in range(r.randint(0, 5))] for _ in range(n // 16)]
     body = []
-    body.append("Eval vm_compute in (leaf_fnm " + coq.coq_list([f"({cs(a)}, {cs(b)})" for a, b in pairs]) + ").")
-    body.append("Eval vm_compute in (leaf_matches collect_actual " + coq.coq_list([f"({cs(a)}, {cs(b)})" for a, b in mp]) + ").")
+    # long list literals overflow coqc's stack (seen at ~48000 pairs in the thorough tier): at most CH elements per Eval
+    CH = 6000
+    fnm_chunks = [pairs[k:k + CH] for k in range(0, len(pairs), CH)] or [[]]
+    mp_chunks = [mp[k:k + CH] for k in range(0, len(mp), CH)] or [[]]
+    for ch in fnm_chunks:
+        body.append("Eval vm_compute in (leaf_fnm " + coq.coq_list([f"({cs(a)}, {cs(b)})" for a, b in ch]) + ").")
+    for ch in mp_chunks:
+        body.append("Eval vm_compute in (leaf_matches collect_actual " + coq.coq_list([f"({cs(a)}, {cs(b)})" for a, b in ch]) + ").")
     body.append("Eval vm_compute in (map (fun x => String.eqb (name_suffix (fst x)) (snd x)) " + coq.coq_list([f"({cs(a)}, {cs(Path(a).suffix if a else '')})" for a in names]) + ").")
     body.append("Eval vm_compute in (map is_hardcoded_excluded " + coq.coq_list([cl(p) for p in parts]) + ").")
     body.append("Eval vm_compute in (map should_include_dir " + cl([p[0] for p in parts]) + ").")
     body.append("Eval vm_compute in (map (fun x => str_eq_list (extract_patterns_gen (fst x)) (snd x)) " +
                 coq.coq_list([f"({cl(ls)}, {cl(extract_patterns_from_content(chr(10).join(ls)))})" for ls in lines]) + ").")
     outs = coq.eval_shards(workdir, HEADER, ["\n".join(body)])[0]
+    nf, nm = len(fnm_chunks), len(mp_chunks)
+    if len(outs) >= nf + nm:
+        outs = [[b for o in outs[:nf] for b in o], [b for o in outs[nf:nf + nm] for b in o]] + list(outs[nf + nm:])
     expect = [[fnmatch.fnmatch(a, b) for a, b in pairs], [matches_pattern(a, b) for a, b in mp], [True] * len(names),
               [core._is_hardcoded_excluded(Path(*p)) for p in parts], [core._should_include_dir(p[0]) for p in parts], [True] * len(lines)]
     inputs = [pairs, mp, names, parts, [p[0] for p in parts], lines]
